@@ -11,7 +11,9 @@ Sequences: exhaustive up to length 3 (thorough: 4) over {add,set,remove} x three
 capacity 0..4 (raw) / 0,1,16 (pool), each followed by the full query battery (find/has/single and multi getters
 with result sizes count-1, count, count+1, count+4, path, queries, content format); seeded random sequences over
 all operations with value lengths around the 256-byte inline buffer and paths with empty and 255/256-byte
-segments; targeted path edits on objects that already carry a path when the buffer must grow or the path is refused.
+segments; targeted path edits on objects that already carry a path when the buffer must grow or the path is refused;
+resets of an object to (a subset / permutation of) its own options after setters called in non-ascending number order
+(`resetself`: the sources are views into the object's own value buffer).
 """
 import concurrent.futures as cf
 import glob
@@ -26,7 +28,7 @@ from . import common
 MODULES = ["CoapVerif.Props.C15", "CoapVerif.Findings.C15"]
 GENERATED = ["OptionList.lean", "OptionListShape.lean"]
 EDITS = {"set", "add", "setstr", "addstr", "setu32", "addu32", "remove", "setpath", "setloc", "addquery", "resetto",
-         "clone", "swap", "reset"}
+         "resetself", "clone", "swap", "reset"}
 IDS_SMALL = [8, 11, 15]
 IDS_WIDE = [0, 1, 3, 4, 6, 8, 11, 12, 14, 15, 17, 20, 23, 35, 60, 258, 65535]
 
@@ -79,6 +81,10 @@ class Ref:
             self.ids.append(15)
         elif op == "resetto":
             self.ids = [int(x.split(":")[0]) for x in f[2:]]
+        elif op == "resetself":
+            if self.ids:
+                cur = sorted(self.ids)
+                self.ids = [cur[int(x) % len(cur)] for x in f[1:]]
         elif op == "reset":
             self.ids = []
 
@@ -174,6 +180,19 @@ def rand_edit(rng, ref, pool, ids):
     if k < 0.91:
         n = rng.choice([0, 1, 2, 3, 5, 8])
         return "resetto %d %s" % (n, " ".join("%d:%s" % (rng.choice(ids), hx(rand_value(rng))) for _ in range(n)))
+    if k < 0.925:
+        n = len(ref.ids)
+        if n == 0:
+            return "resetself"
+        j = rng.random()
+        if j < 0.3:
+            idx = list(range(n))                                   # the whole own list
+        elif j < 0.6:
+            idx = [i for i in range(n) if rng.random() < 0.7]      # a filtered copy ("everything but …")
+        else:
+            idx = [rng.randrange(n + 2) for _ in range(rng.choice([1, 2, 3, n]))]   # permutation / repetition
+            rng.shuffle(idx)
+        return "resetself " + " ".join(map(str, idx))
     if k < 0.94:
         return "clone"
     if k < 0.97:
@@ -248,6 +267,60 @@ def path_edit_seqs(rng, count):
         seq += ["path", "locpath", "find %d" % oid, "queries", "getstrs %d 8" % oid, "cf", "find 15", "find 35"]
         seq.append("%s %s" % (verb, hx(b"/k/l")))
         seq += ["path", "locpath"]
+        seqs.append(seq)
+    return seqs
+
+
+def resetself_seqs(rng, count):
+    """Aliasing: values stored in an order different from option-number order (typed setters after SetPath, queries
+    before the path, …) with assorted lengths, then the object is reset to (a subset / permutation of) ITS OWN options —
+    the sources of the copies are views into the object's own value buffer."""
+    seqs = []
+    for _ in range(count):
+        pool = rng.random() < 0.7
+        seq = ["new pool %d" % rng.choice([0, 1, 2, 4, 16, 16])] if pool else \
+            ["new raw %d %d" % (rng.choice([0, 1, 2, 4, 8]), rng.choice([64, 300, 600, 2000]))]
+        ref = Ref()
+        ids = rng.sample([1, 3, 4, 6, 8, 11, 12, 14, 15, 17, 20, 35, 60], rng.choice([2, 3, 4, 5, 6]))
+        ids.sort(reverse=rng.random() < 0.7)
+        if rng.random() < 0.4:
+            rng.shuffle(ids)
+        for i in ids:
+            ln = rng.choice([1, 2, 3, 5, 8, 10, 17, 40, 100, 250])
+            val = bytes(rng.randrange(1, 256) for _ in range(ln))
+            k = rng.random()
+            if i == 11 and k < 0.6:
+                e = "setpath %s" % hx(b"/" + b"/".join(bytes(rng.choice(b"abcdefgh") for _ in range(rng.choice([1, 3, 6]))) for _ in range(rng.choice([1, 2, 3]))))
+            elif i == 15 and k < 0.5:
+                e = "addquery %s" % hx(val)
+            elif k < 0.25:
+                e = "setu32 %d %d" % (i, rng.choice([42, 300, 70000, 1 << 30]))
+            else:
+                e = "%s %d %s" % (rng.choice(["set", "add", "setstr", "addstr"]), i, hx(val))
+            ref.apply(e)
+            seq.append(e)
+            if rng.random() < 0.3:
+                e = "%s %d %s" % (rng.choice(["add", "addstr"]), i, hx(bytes(rng.randrange(256) for _ in range(rng.choice([1, 4, 9])))))
+                ref.apply(e)
+                seq.append(e)
+        for _ in range(rng.choice([1, 1, 2, 3])):
+            n = len(ref.ids)
+            j = rng.random()
+            if j < 0.35:
+                idx = list(range(n))
+            elif j < 0.7:
+                idx = [i for i in range(n) if rng.random() < 0.75]
+            else:
+                idx = rng.sample(range(n), rng.randrange(1, n + 1)) if n else []
+            e = "resetself " + " ".join(map(str, idx))
+            ref.apply(e)
+            seq.append(e)
+            seq += ["path", "queries", "cf"]
+            if rng.random() < 0.5:
+                e = "%s %d %s" % (rng.choice(["set", "add"]), rng.choice(ids), hx(bytes(rng.randrange(256) for _ in range(rng.choice([1, 6, 30])))))
+                ref.apply(e)
+                seq.append(e)
+        seq += battery(sorted(set(ref.ids))[:4] or [11], ref.counts())
         seqs.append(seq)
     return seqs
 
@@ -374,6 +447,8 @@ def nontrivial(seq, impl):
             ids.add("15")
         elif f[0] == "resetto":
             ids.update(x.split(":")[0] for x in f[2:])
+        elif f[0] == "resetself":
+            pass
         else:
             ids.add(f[1])
     if len(edits) >= 3 and len(ids) >= 2:
@@ -406,6 +481,7 @@ def explore(ctx, art):
             # one more step for the tightest and the default capacities
             yield "exhaustive", exhaustive([5], [0, 2], [16])
         yield "path-edit", batches(path_edit_seqs(rng, 6000 if thorough else 400))
+        yield "reset-self", batches(resetself_seqs(rng, 6000 if thorough else 500))
         yield "random", batches(random_seqs(rng, 30000 if thorough else 1200, 48 if thorough else 28))
     distinct = set()
     totals = {}
@@ -464,7 +540,8 @@ def explore(ctx, art):
         "path, locpath, queries, content format); path-edit = path set on an object that already carries a path with later "
         "options, when the buffer must grow or the new path is refused; random = seeded sequences over all operations, value "
         "lengths around 255/256/257 and beyond, paths with empty and 255/256-byte segments, resetto with unsorted input, "
-        "clone/swap/reset. evaluations = operation lines executed on the real code and judged. distinct_nontrivial = number of "
+        "clone/swap/reset/resetself; reset-self = values stored in an order different from option-number order, then the object "
+        "is reset to a subset / permutation of ITS OWN options (sources alias the object's value buffer). evaluations = operation lines executed on the real code and judged. distinct_nontrivial = number of "
         "distinct sequences (SHA-1 of the text) that have >= 3 editing operations on >= 2 option numbers, or in which a value "
         "forced the pooled message's value buffer to grow (detected from the reported unused-buffer length)." % (4 if thorough else 3))
     _ = growth
